@@ -35,7 +35,7 @@ READ_U64_CONTRACT = [
     ('ensures', '[C07] reserved additional information 28..30 and 31 (no argument) are not decoded to a value',
      '(%s >= 1 && %s < 0) ==> *ec_p != 0' % (AVAIL, NB)),
     ('ensures', '[C05] the cursor never passes the end of the input', 'vx_src_pos <= vx_src_n && vx_src_pos >= __CPROVER_old(vx_src_pos)'),
-    ('ensures', '[C07] an error stops the parser', '*ec_p != 0 ==> self->more_ == 0'),
+    ('ensures', '[C07] an error stops the parser (and nothing else touches the run flag)', '(*ec_p != 0 ==> self->more_ == 0) && (*ec_p == 0 ==> self->more_ == __CPROVER_old(self->more_))'),
 ]
 
 MAJOR = '(%s >> 5)' % B0
@@ -59,6 +59,7 @@ READ_I64_CONTRACT = [
     ('ensures', '[C07] reserved additional information 28..31 is not decoded to a value',
      '(%s <= 1 && %s >= 1 && %s < 0) ==> *ec_p != 0' % (MAJOR, AVAIL, NB)),
     ('ensures', '[C05] the cursor never passes the end of the input', 'vx_src_pos <= vx_src_n && vx_src_pos >= __CPROVER_old(vx_src_pos)'),
+    ('ensures', '[C07] an error stops the parser (and nothing else touches the run flag)', '(*ec_p != 0 ==> self->more_ == 0) && (*ec_p == 0 ==> self->more_ == __CPROVER_old(self->more_))'),
 ]
 
 HEAD = 'spec_cbor_head((uint8_t)(major_type >> 5), length, vx_exp)'
